@@ -1,0 +1,776 @@
+//! More verification jobs: refactoring tools, eval-up-to, autofixes,
+//! the type lattice loops and the LSP message handler.
+
+use std::path::PathBuf;
+use std::rc::Rc;
+use std::sync::atomic::AtomicBool;
+use std::sync::{Arc, Mutex};
+use std::time::Instant;
+
+use serde_json::{json, Value as J};
+
+use crate::checks::check_toplevel_items_in_env;
+use crate::checks::type_checker::verif_access::{unify, unify_all};
+use crate::env::Env;
+use crate::eval::{
+    eval_toplevel_items, eval_up_to, load_toplevel_items, EvalUpToErr, Session, StdoutStderrMode,
+};
+use crate::garden_type::{is_subtype, Type, TypeDefKind};
+use crate::parser::ast::{IdGenerator, TypeName};
+use crate::parser::parse_toplevel_items;
+use crate::parser::position::Position;
+use crate::parser::vfs::Vfs;
+
+use super::{eval_error_json, job_path, pos_json};
+
+fn spans_of(job: &J) -> Vec<(usize, usize)> {
+    if let Some(spans) = job["spans"].as_array() {
+        spans
+            .iter()
+            .map(|s| {
+                let a = s[0].as_u64().unwrap_or(0) as usize;
+                let b = s[1].as_u64().unwrap_or(a as u64) as usize;
+                (a, b)
+            })
+            .collect()
+    } else {
+        let a = job["offset"].as_u64().unwrap_or(0) as usize;
+        let b = job["end_offset"].as_u64().unwrap_or(a as u64) as usize;
+        vec![(a, b)]
+    }
+}
+
+/// Run one refactoring tool on `src` at each of the given spans.
+pub(super) fn job_refactor(job: &J) -> J {
+    let src = job["src"].as_str().unwrap_or("");
+    let path = job_path(job);
+    let tool = job["tool"].as_str().unwrap_or("");
+    let name = job["name"].as_str().unwrap_or("zz9");
+
+    let mut results = vec![];
+    for (offset, end_offset) in spans_of(job) {
+        let r = verif_rt::guarded(|| -> J {
+            let text_result = |r: Result<String, String>| match r {
+                Ok(s) => json!({"ok": s}),
+                Err(e) => json!({"err": e}),
+            };
+            match tool {
+                "rename" => text_result(crate::rename::rename(src, &path, offset, name)),
+                "rename_positions" => match crate::rename::rename_positions(src, &path, offset) {
+                    Ok(ps) => json!({"positions": ps.iter().map(pos_json).collect::<Vec<_>>()}),
+                    Err(e) => json!({"err": e}),
+                },
+                "extract_variable" => text_result(crate::extract_variable::extract_variable(
+                    src, &path, offset, end_offset, name,
+                )),
+                "extract_function" => text_result(crate::extract_function::extract_function(
+                    src, &path, offset, end_offset, name,
+                )),
+                "wrap_in_dbg" => {
+                    text_result(crate::wrap_in_dbg::wrap_in_dbg(src, &path, offset, end_offset))
+                }
+                "add_type_annotation" => text_result(
+                    crate::add_type_annotation::add_type_annotation(src, &path, offset, end_offset),
+                ),
+                "destructure" => {
+                    text_result(crate::destructure::destructure(src, &path, offset, end_offset))
+                }
+                "highlight" => {
+                    let ps = crate::highlight::highlight_occurrences(src, &path, offset);
+                    json!({"positions": ps.iter().map(pos_json).collect::<Vec<_>>()})
+                }
+                "definition" => {
+                    let (p, _) = crate::go_to_def::find_def_pos(src, &path, offset);
+                    json!({"position": p.as_ref().map(pos_json)})
+                }
+                _ => json!({"error": format!("unknown tool {tool}")}),
+            }
+        });
+        results.push(match r {
+            Ok(v) => v,
+            Err(msg) => json!({"panic": msg}),
+        });
+    }
+    json!({"results": results})
+}
+
+/// Mirror of `reftest_eval_up_to` in main.rs for each offset: run the
+/// program on a fresh `Env`, then eval-up-to the offset.
+pub(super) fn job_eval_up_to(job: &J) -> J {
+    let src = job["src"].as_str().unwrap_or("");
+    let path = job_path(job);
+    let offsets: Vec<usize> = job["offsets"]
+        .as_array()
+        .map(|a| a.iter().filter_map(|x| x.as_u64().map(|n| n as usize)).collect())
+        .unwrap_or_default();
+
+    let mut results = vec![];
+    for offset in offsets {
+        let r = verif_rt::guarded(|| -> J {
+            let mut id_gen = IdGenerator::default();
+            let mut vfs = Vfs::default();
+            let vfs_path = vfs.insert(Rc::new(path.clone()), src.to_owned());
+            let (items, errors) = parse_toplevel_items(&vfs_path, src, &mut id_gen);
+            if !errors.is_empty() {
+                return json!({"parse_errors": errors.len()});
+            }
+            let mut env = Env::new(id_gen, vfs);
+            if let Some(n) = job["tick_limit"].as_u64() {
+                env.tick_limit = Some(n as usize);
+            }
+            let ns = env.get_or_create_namespace(&path);
+            env.current_frame_mut().namespace = ns;
+
+            let stdout_buf = Arc::new(Mutex::new(String::new()));
+            let stderr_buf = Arc::new(Mutex::new(String::new()));
+            let session = Session {
+                interrupted: Arc::new(AtomicBool::new(false)),
+                stdout_stderr_mode: StdoutStderrMode::WriteToNReplBuffers {
+                    stdout_buf: Arc::clone(&stdout_buf),
+                    stderr_buf: Arc::clone(&stderr_buf),
+                },
+                start_time: Instant::now(),
+                trace_exprs: false,
+                pretty_print_json: true,
+            };
+
+            if let Err(e) = eval_toplevel_items(&vfs_path, &items, &mut env, &session) {
+                return json!({"run_error": eval_error_json(&e)});
+            }
+            let stdout_before = stdout_buf.lock().unwrap().len();
+            match eval_up_to(&vfs_path, &mut env, &session, &items, offset) {
+                Ok((v, pos)) => json!({
+                    "value": v.display(&env),
+                    "position": pos_json(&pos),
+                    "stdout_during": stdout_buf.lock().unwrap()[stdout_before..].to_owned(),
+                }),
+                Err(EvalUpToErr::EvalError(e)) => json!({"eval_error": eval_error_json(&e)}),
+                Err(EvalUpToErr::NoExpressionFound) => json!({"none": "no_expression_found"}),
+                Err(EvalUpToErr::NoValueAvailable) => json!({"none": "no_value_available"}),
+            }
+        });
+        results.push(match r {
+            Ok(v) => v,
+            Err(msg) => json!({"panic": msg}),
+        });
+    }
+    json!({"results": results})
+}
+
+/// Mirror of `garden check --fix --stdout`.
+pub(super) fn job_fix(job: &J) -> J {
+    let src = job["src"].as_str().unwrap_or("");
+    let path = job_path(job);
+    let mut id_gen = IdGenerator::default();
+    let (vfs, vfs_path) = Vfs::singleton(path.clone(), src.to_owned());
+    let (items, errors) = parse_toplevel_items(&vfs_path, src, &mut id_gen);
+    if !errors.is_empty() {
+        return json!({"parse_errors": errors.len(), "fixed": src, "n_fixes": 0});
+    }
+    let mut env = Env::new(id_gen, vfs);
+    let ns = env.get_or_create_namespace(&path);
+    let (mut diags, _) = load_toplevel_items(&items, &mut env, Rc::clone(&ns));
+    diags.extend(check_toplevel_items_in_env(&vfs_path, &items, &env, ns));
+    let mut fixes = vec![];
+    for d in &diags {
+        fixes.extend(d.fixes.iter().cloned());
+    }
+    let fixed = if fixes.is_empty() {
+        src.to_owned()
+    } else {
+        crate::syntax_check::verif_access::apply_fixes(src, &fixes)
+    };
+    json!({
+        "parse_errors": 0,
+        "fixed": fixed,
+        "n_fixes": fixes.len(),
+        "fixes": fixes.iter().map(|f| json!({"description": f.description, "position": pos_json(&f.position), "new_text": f.new_text})).collect::<Vec<_>>(),
+        "messages": diags.iter().map(|d| d.message.as_string()).collect::<Vec<_>>(),
+    })
+}
+
+// ---------------------------------------------------------------
+// Type lattice loops (C14, C15).
+
+fn ud(name: &str, kind: TypeDefKind, args: Vec<Type>) -> Type {
+    Type::UserDefined {
+        kind,
+        name: TypeName {
+            text: name.to_owned(),
+        },
+        args,
+    }
+}
+
+fn fun(params: Vec<Type>, ret: Type) -> Type {
+    Type::Fun {
+        name_sym: None,
+        type_params: vec![],
+        params,
+        return_: Box::new(ret),
+    }
+}
+
+fn leaves(n: usize) -> Vec<Type> {
+    let all = vec![
+        Type::Any,
+        Type::no_value(),
+        Type::int(),
+        Type::string(),
+        Type::unit(),
+        Type::TypeParameter(TypeName {
+            text: "T".to_owned(),
+        }),
+    ];
+    all.into_iter().take(n).collect()
+}
+
+/// All types with one constructor applied to members of `base`, plus
+/// `base` itself.
+fn level(base: &[Type], binary: bool, fun2: bool) -> Vec<Type> {
+    let mut out: Vec<Type> = base.to_vec();
+    for a in base {
+        out.push(Type::list(a.clone()));
+        out.push(ud("Option", TypeDefKind::Enum, vec![a.clone()]));
+        out.push(ud("S", TypeDefKind::Struct, vec![a.clone()]));
+    }
+    out.push(Type::Tuple(vec![]));
+    for a in base {
+        out.push(Type::Tuple(vec![a.clone()]));
+        out.push(fun(vec![], a.clone()));
+    }
+    if binary {
+        for a in base {
+            for b in base {
+                out.push(ud("Result", TypeDefKind::Enum, vec![a.clone(), b.clone()]));
+                out.push(Type::Tuple(vec![a.clone(), b.clone()]));
+                out.push(fun(vec![a.clone()], b.clone()));
+            }
+        }
+    }
+    if fun2 {
+        for a in base {
+            for b in base {
+                for c in base {
+                    out.push(fun(vec![a.clone(), b.clone()], c.clone()));
+                }
+            }
+        }
+    }
+    out
+}
+
+/// Universe by name: "D1:<leaves>" = depth <= 1 over the first n
+/// leaves; "D2:<leaves>" = depth <= 2 (binary `Fun` only at depth
+/// 1); "D2u:<leaves>" = depth <= 2 with only unary constructors at
+/// the outer level.
+fn universe(spec: &str) -> Vec<Type> {
+    let (kind, n) = spec.split_once(':').unwrap_or((spec, "3"));
+    let n: usize = n.parse().unwrap_or(3);
+    let l = leaves(n);
+    match kind {
+        "D0" => l,
+        "D1" => level(&l, true, true),
+        "D2" => level(&level(&l, true, true), true, false),
+        "D2u" => level(&level(&l, true, true), false, false),
+        _ => vec![],
+    }
+}
+
+fn head(t: &Type) -> String {
+    match t {
+        Type::Any => "Any".to_owned(),
+        Type::Tuple(xs) => format!("Tuple{}", xs.len()),
+        Type::Fun { params, .. } => format!("Fun{}", params.len()),
+        Type::UserDefined { name, args, .. } => format!("{}{}", name.text, args.len()),
+        Type::TypeParameter(_) => "TypeParameter".to_owned(),
+        Type::Error { .. } => "Error".to_owned(),
+    }
+}
+
+struct Failures {
+    n: u64,
+    kept: Vec<J>,
+}
+
+impl Failures {
+    fn new() -> Self {
+        Self { n: 0, kept: vec![] }
+    }
+    fn add(&mut self, law: &str, types: &[&Type], extra: &str) {
+        self.n += 1;
+        if self.kept.len() < 40 {
+            self.kept.push(json!({
+                "law": law,
+                "types": types.iter().map(|t| format!("{t}")).collect::<Vec<_>>(),
+                "heads": types.iter().map(|t| head(t)).collect::<Vec<_>>(),
+                "extra": extra,
+            }));
+        }
+    }
+}
+
+fn shard_of(job: &J) -> (usize, usize) {
+    (
+        job["shard"].as_u64().unwrap_or(0) as usize,
+        (job["nshards"].as_u64().unwrap_or(1) as usize).max(1),
+    )
+}
+
+pub(super) fn job_types(job: &J) -> J {
+    let mode = job["mode"].as_str().unwrap_or("");
+    let spec = job["universe"].as_str().unwrap_or("D1:6");
+    let u = universe(spec);
+    let (shard, nshards) = shard_of(job);
+    let mut f = Failures::new();
+    let mut count = 0u64;
+    let mut related = 0u64;
+    let any = Type::Any;
+    let nv = Type::no_value();
+
+    match mode {
+        "size" => {}
+        // Reflexivity, top, bottom; unify(t, t) = t.
+        "singles" => {
+            for (i, t) in u.iter().enumerate() {
+                if i % nshards != shard {
+                    continue;
+                }
+                count += 1;
+                if !is_subtype(t, t) {
+                    f.add("reflexive", &[t], "");
+                }
+                if !is_subtype(t, &any) {
+                    f.add("top", &[t], "t <: Any fails");
+                }
+                if !is_subtype(&nv, t) {
+                    f.add("bottom", &[t], "NoValue <: t fails");
+                }
+                if is_subtype(&any, t) && *t != any {
+                    f.add("top-unique", &[t], "Any <: t for t != Any");
+                }
+                if is_subtype(t, &nv) && !t.is_no_value() {
+                    f.add("bottom-unique", &[t], "t <: NoValue for t != NoValue");
+                }
+                match unify(t, t) {
+                    Some(r) if r == *t => {}
+                    Some(r) => f.add("unify-idempotent", &[t, &r], "unify(t, t) != t"),
+                    None => f.add("unify-idempotent", &[t], "unify(t, t) = None"),
+                }
+            }
+        }
+        // Variance of every unary constructor over all pairs of the
+        // universe, and of Fun1 with a small result grid.
+        "variance1" => {
+            let res = leaves(3);
+            for (i, a) in u.iter().enumerate() {
+                if i % nshards != shard {
+                    continue;
+                }
+                for b in u.iter() {
+                    let ab = is_subtype(a, b);
+                    let ba = is_subtype(b, a);
+                    count += 1;
+                    if ab {
+                        related += 1;
+                    }
+                    let co: Vec<(&str, Type, Type)> = vec![
+                        ("List", Type::list(a.clone()), Type::list(b.clone())),
+                        (
+                            "Option",
+                            ud("Option", TypeDefKind::Enum, vec![a.clone()]),
+                            ud("Option", TypeDefKind::Enum, vec![b.clone()]),
+                        ),
+                        (
+                            "S",
+                            ud("S", TypeDefKind::Struct, vec![a.clone()]),
+                            ud("S", TypeDefKind::Struct, vec![b.clone()]),
+                        ),
+                        ("Tuple1", Type::Tuple(vec![a.clone()]), Type::Tuple(vec![b.clone()])),
+                        ("Fun0-result", fun(vec![], a.clone()), fun(vec![], b.clone())),
+                    ];
+                    for (name, ca, cb) in &co {
+                        if is_subtype(ca, cb) != ab {
+                            f.add(&format!("covariant:{name}"), &[ca, cb], if ab { "a <: b but C<a> !<: C<b>" } else { "a !<: b but C<a> <: C<b>" });
+                        }
+                    }
+                    for r in &res {
+                        for s in &res {
+                            let fa = fun(vec![a.clone()], r.clone());
+                            let fb = fun(vec![b.clone()], s.clone());
+                            let want = ba && is_subtype(r, s);
+                            if is_subtype(&fa, &fb) != want {
+                                f.add("contravariant:Fun1", &[&fa, &fb], if want { "expected subtype" } else { "expected not subtype" });
+                            }
+                        }
+                    }
+                }
+            }
+        }
+        // Variance of the binary constructors: all 4-tuples of the universe.
+        "variance2" => {
+            let n = u.len();
+            let mut m = vec![false; n * n];
+            for i in 0..n {
+                for j in 0..n {
+                    m[i * n + j] = is_subtype(&u[i], &u[j]);
+                }
+            }
+            for a1 in 0..n {
+                if a1 % nshards != shard {
+                    continue;
+                }
+                for b1 in 0..n {
+                    let r1 = ud("Result", TypeDefKind::Enum, vec![u[a1].clone(), u[b1].clone()]);
+                    let t1 = Type::Tuple(vec![u[a1].clone(), u[b1].clone()]);
+                    let f1 = fun(vec![u[a1].clone(), u[b1].clone()], Type::int());
+                    for a2 in 0..n {
+                        for b2 in 0..n {
+                            count += 1;
+                            let co = m[a1 * n + a2] && m[b1 * n + b2];
+                            let contra = m[a2 * n + a1] && m[b2 * n + b1];
+                            let r2 = ud("Result", TypeDefKind::Enum, vec![u[a2].clone(), u[b2].clone()]);
+                            if is_subtype(&r1, &r2) != co {
+                                f.add("covariant:Result", &[&r1, &r2], "");
+                            }
+                            let t2 = Type::Tuple(vec![u[a2].clone(), u[b2].clone()]);
+                            if is_subtype(&t1, &t2) != co {
+                                f.add("covariant:Tuple2", &[&t1, &t2], "");
+                            }
+                            let f2 = fun(vec![u[a2].clone(), u[b2].clone()], Type::int());
+                            if is_subtype(&f1, &f2) != contra {
+                                f.add("contravariant:Fun2", &[&f1, &f2], "");
+                            }
+                        }
+                    }
+                }
+            }
+        }
+        // Different head constructor or arity: unrelated, unless top
+        // or bottom is involved.
+        "heads" => {
+            for (i, a) in u.iter().enumerate() {
+                if i % nshards != shard {
+                    continue;
+                }
+                for b in u.iter() {
+                    if head(a) == head(b) {
+                        continue;
+                    }
+                    count += 1;
+                    let expected = matches!(b, Type::Any) || a.is_no_value();
+                    if is_subtype(a, b) != expected {
+                        f.add("heads-unrelated", &[a, b], if expected { "expected subtype" } else { "different heads but subtype" });
+                    }
+                }
+            }
+        }
+        // Write rows of the subtype matrix (one bit per pair) to a file.
+        "matrix" => {
+            let n = u.len();
+            let words = n.div_ceil(64);
+            let mut bytes: Vec<u8> = Vec::new();
+            for (i, a) in u.iter().enumerate() {
+                if i % nshards != shard {
+                    continue;
+                }
+                let mut row = vec![0u64; words];
+                for (j, b) in u.iter().enumerate() {
+                    count += 1;
+                    if is_subtype(a, b) {
+                        related += 1;
+                        row[j / 64] |= 1u64 << (j % 64);
+                    }
+                }
+                bytes.extend_from_slice(&(i as u64).to_le_bytes());
+                for w in row {
+                    bytes.extend_from_slice(&w.to_le_bytes());
+                }
+            }
+            if let Some(out) = job["out"].as_str() {
+                if let Err(e) = std::fs::write(out, &bytes) {
+                    return json!({"error": format!("write {out}: {e}")});
+                }
+            }
+        }
+        // Transitivity over the whole cube, from matrix files.
+        "trans" => {
+            let n = u.len();
+            let words = n.div_ceil(64);
+            let mut rows: Vec<Vec<u64>> = vec![vec![]; n];
+            for file in job["files"].as_array().cloned().unwrap_or_default() {
+                let Some(file) = file.as_str() else { continue };
+                let Ok(bytes) = std::fs::read(file) else {
+                    return json!({"error": format!("cannot read {file}")});
+                };
+                let rec = 8 * (words + 1);
+                for chunk in bytes.chunks_exact(rec) {
+                    let i = u64::from_le_bytes(chunk[0..8].try_into().unwrap()) as usize;
+                    let row: Vec<u64> = chunk[8..]
+                        .chunks_exact(8)
+                        .map(|w| u64::from_le_bytes(w.try_into().unwrap()))
+                        .collect();
+                    if i < n {
+                        rows[i] = row;
+                    }
+                }
+            }
+            if rows.iter().any(|r| r.len() != words) {
+                return json!({"error": "matrix incomplete"});
+            }
+            for a in 0..n {
+                if a % nshards != shard {
+                    continue;
+                }
+                for b in 0..n {
+                    if rows[a][b / 64] >> (b % 64) & 1 == 0 {
+                        continue;
+                    }
+                    related += 1;
+                    // every c with b <: c must have a <: c
+                    for w in 0..words {
+                        count += 64;
+                        let missing = rows[b][w] & !rows[a][w];
+                        if missing != 0 {
+                            let c = w * 64 + missing.trailing_zeros() as usize;
+                            f.add("transitive", &[&u[a], &u[b], &u[c]], "a <: b, b <: c, a !<: c");
+                        }
+                    }
+                }
+            }
+        }
+        // Joins: unify(a, b) = Some(u) => a <: u and b <: u.
+        "unify" => {
+            for (i, a) in u.iter().enumerate() {
+                if i % nshards != shard {
+                    continue;
+                }
+                for b in u.iter() {
+                    count += 1;
+                    if let Some(j) = unify(a, b) {
+                        related += 1;
+                        if !is_subtype(a, &j) {
+                            f.add("join-covers-left", &[a, b, &j], "unify(a, b) = j but a !<: j");
+                        }
+                        if !is_subtype(b, &j) {
+                            f.add("join-covers-right", &[a, b, &j], "unify(a, b) = j but b !<: j");
+                        }
+                        if a == b && j != *a {
+                            f.add("unify-idempotent", &[a, &j], "unify(a, a) != a");
+                        }
+                    } else if a == b {
+                        f.add("unify-idempotent", &[a], "unify(a, a) = None");
+                    }
+                }
+            }
+        }
+        // unify_all on every ordered triple.
+        "unify_all" => {
+            let (_vfs, vfs_path) = Vfs::singleton(PathBuf::from("/verif_scratch/types.gdn"), String::new());
+            let pos = Position::todo(&vfs_path);
+            for (i, a) in u.iter().enumerate() {
+                if i % nshards != shard {
+                    continue;
+                }
+                for b in u.iter() {
+                    for c in u.iter() {
+                        count += 1;
+                        let tys = vec![
+                            (a.clone(), pos.clone()),
+                            (b.clone(), pos.clone()),
+                            (c.clone(), pos.clone()),
+                        ];
+                        if let Ok(j) = unify_all(&tys) {
+                            related += 1;
+                            for t in [a, b, c] {
+                                if !is_subtype(t, &j) {
+                                    f.add("join-all-covers", &[a, b, c, &j], "an element is not a subtype of the combined type");
+                                    break;
+                                }
+                            }
+                            if a == b && b == c && j != *a {
+                                f.add("unify-idempotent", &[a, &j], "unify_all([a, a, a]) != a");
+                            }
+                        }
+                    }
+                }
+            }
+        }
+        _ => return json!({"error": format!("unknown types mode {mode}")}),
+    }
+    json!({"universe": u.len(), "count": count, "related": related, "n_fail": f.n, "failures": f.kept})
+}
+
+// ---------------------------------------------------------------
+// LSP (C28, C29).
+
+/// Feed client messages to one server instance.
+pub(super) fn job_lsp(job: &J) -> J {
+    let empty = vec![];
+    let messages = job["messages"].as_array().unwrap_or(&empty);
+    let mut server = crate::lsp::verif_access::Server::new();
+    let mut out = vec![];
+    let mut exited = false;
+    for (i, m) in messages.iter().enumerate() {
+        // A string is raw text from the wire: the real server drops
+        // lines that are not JSON.
+        let parsed: Option<J> = match m {
+            J::String(s) => serde_json::from_str(s).ok(),
+            other => Some(other.clone()),
+        };
+        let Some(msg) = parsed else {
+            out.push(json!({"out": [], "action": "unparsed"}));
+            continue;
+        };
+        let r = verif_rt::guarded(|| server.handle(&msg));
+        match r {
+            Ok((msgs, action)) => {
+                out.push(json!({"out": msgs, "action": action}));
+                if action == "exit" {
+                    exited = true;
+                    break;
+                }
+            }
+            Err(p) => {
+                out.push(json!({"panic": p, "message_index": i}));
+                break;
+            }
+        }
+    }
+    let docs: Vec<J> = server
+        .documents()
+        .into_iter()
+        .map(|(p, s)| json!([p.display().to_string(), s]))
+        .collect();
+    json!({"results": out, "exited": exited, "documents": docs})
+}
+
+/// C29 conversion loop: every document of exactly `len` alphabet
+/// elements whose first element has index `first`; every
+/// char-boundary offset must survive offset -> (line, UTF-16 column)
+/// -> offset.
+pub(super) fn job_lsp_conv(job: &J) -> J {
+    use crate::lsp::verif_access::{line_char_to_offset, offset_to_lsp_position, whole_document_range};
+    let alphabet: Vec<String> = job["alphabet"]
+        .as_array()
+        .map(|a| a.iter().filter_map(|x| x.as_str().map(|s| s.to_owned())).collect())
+        .unwrap_or_default();
+    let len = job["len"].as_u64().unwrap_or(0) as usize;
+    let first = job["first"].as_u64().unwrap_or(0) as usize;
+    let k = alphabet.len();
+    let mut docs = 0u64;
+    let mut offsets = 0u64;
+    let mut n_fail = 0u64;
+    let mut failures = vec![];
+    let mut ranges: Vec<J> = vec![];
+    let want_ranges = job["ranges"].as_bool().unwrap_or(false);
+    let mut word = vec![0usize; len];
+    if len > 0 {
+        word[0] = first;
+    }
+    loop {
+        let src: String = word.iter().map(|w| alphabet[*w].as_str()).collect();
+        docs += 1;
+        let mut o = 0;
+        loop {
+            if src.is_char_boundary(o) {
+                offsets += 1;
+                let line = src[..o].matches('\n').count();
+                let r = verif_rt::guarded(|| {
+                    let (l, c) = offset_to_lsp_position(&src, o, line);
+                    (l, c, line_char_to_offset(&src, l as usize, c as usize))
+                });
+                match r {
+                    Ok((l, c, back)) => {
+                        if back != o {
+                            n_fail += 1;
+                            if failures.len() < 40 {
+                                failures.push(json!({"src": src, "offset": o, "line": l, "character": c, "back": back}));
+                            }
+                        }
+                    }
+                    Err(p) => {
+                        n_fail += 1;
+                        if failures.len() < 40 {
+                            failures.push(json!({"src": src, "offset": o, "panic": p}));
+                        }
+                    }
+                }
+            }
+            if o >= src.len() {
+                break;
+            }
+            o += 1;
+        }
+        if want_ranges {
+            let (a, b, c, d) = whole_document_range(&src);
+            ranges.push(json!([src, a, b, c, d]));
+        }
+        // next word
+        let mut i = len;
+        loop {
+            if i <= 1 {
+                return json!({"docs": docs, "offsets": offsets, "n_fail": n_fail, "failures": failures, "ranges": ranges});
+            }
+            i -= 1;
+            word[i] += 1;
+            if word[i] < k {
+                break;
+            }
+            word[i] = 0;
+        }
+    }
+}
+
+/// `whole_document_range` and single conversions for given documents.
+pub(super) fn job_lsp_points(job: &J) -> J {
+    use crate::lsp::verif_access::{line_char_to_offset, offset_to_lsp_position, whole_document_range};
+    let empty = vec![];
+    let mut out = vec![];
+    for q in job["queries"].as_array().unwrap_or(&empty) {
+        let src = q["src"].as_str().unwrap_or("");
+        let mut res = serde_json::Map::new();
+        let (a, b, c, d) = whole_document_range(src);
+        res.insert("whole".into(), json!([a, b, c, d]));
+        if let Some(lcs) = q["line_chars"].as_array() {
+            res.insert(
+                "offsets".into(),
+                J::Array(
+                    lcs.iter()
+                        .map(|lc| {
+                            json!(line_char_to_offset(
+                                src,
+                                lc[0].as_u64().unwrap_or(0) as usize,
+                                lc[1].as_u64().unwrap_or(0) as usize
+                            ))
+                        })
+                        .collect(),
+                ),
+            );
+        }
+        if let Some(offs) = q["offsets"].as_array() {
+            res.insert(
+                "positions".into(),
+                J::Array(
+                    offs.iter()
+                        .map(|o| {
+                            let o = (o.as_u64().unwrap_or(0) as usize).min(src.len());
+                            let mut o2 = o;
+                            while !src.is_char_boundary(o2) {
+                                o2 -= 1;
+                            }
+                            let line = src[..o2].matches('\n').count();
+                            let (l, c) = offset_to_lsp_position(src, o2, line);
+                            json!([l, c])
+                        })
+                        .collect(),
+                ),
+            );
+        }
+        out.push(J::Object(res));
+    }
+    json!({"results": out})
+}
+
+#[allow(dead_code)]
+fn unused(_: PathBuf) {}
